@@ -37,7 +37,12 @@ func frameSkip(name string) bool {
 // ok=false when the heap may change arbitrarily (listed whole).
 func (fv *FuncVC) frameFormula(name, cur string) (goal, assume string, ok bool) {
 	tmap, all := fv.frameTargets()
-	if all || frameSkip(name) {
+	if frameSkip(name) {
+		return "", "", false
+	}
+	if all && !strings.HasPrefix(name, "GH$") {
+		// 'everything' covers every program heap, but not ghost state: callers keep ghosts that are not
+		// named in the modifies clause, so those are still framed
 		return "", "", false
 	}
 	t, listed := tmap[name]
